@@ -335,6 +335,7 @@ func offsStr(o []uint64) string {
 type genOpts struct {
 	lcDistinct  int // number of distinct values for LowCardinality rows (0 = default small)
 	bigStrings  bool
+	longStrings bool // string lengths around and beyond 1 KiB mixed with short ones
 	emptyArrays bool // every array / map row is empty
 	uniform     bool // fixed-width integer rows are uniformly random bytes (incompressible)
 }
@@ -414,6 +415,9 @@ func genLeafRow(r *Rng, t *TNode, o genOpts) []byte {
 	case "uuid":
 		return r.Bytes(16)
 	case "str", "json":
+		if o.longStrings {
+			return r.Bytes([]int{3, 1023, 1024, 1025, 2000, 5000, 1, 0, 1500, 4096}[r.Intn(10)])
+		}
 		return genStrBytes(r, o.bigStrings)
 	case "enum":
 		return []byte(t.Enum[r.Intn(len(t.Enum))].Name)
